@@ -135,11 +135,11 @@ theorem SitesOk.via {buf : Bytes} {sites : List Site} {t : Nat} {R : Nat → Pro
 
 /-! ### `compose_name` is complete for resolutions within its caps -/
 
-theorem appendName_length_ge : ∀ (n : Name) (out : Bytes), out.length ≤ (appendName out n).length
+theorem appendName_len_ge : ∀ (n : Name) (out : Bytes), out.length ≤ (appendName out n).length
   | [], out => Nat.le_refl _
   | l :: r, out => by
     rw [appendName]
-    refine Nat.le_trans ?_ (appendName_length_ge r _)
+    refine Nat.le_trans ?_ (appendName_len_ge r _)
     rw [List.length_append]
     split
     · rw [List.length_append]; omega
@@ -170,7 +170,7 @@ theorem composeName_complete_some (recs : Bytes) {p : Nat} {n : Name} {j : Nat} 
     have hcap1 : out.length + len + 1 ≤ 255 := by
       by_cases ho : out.length ≠ 0
       · rw [if_pos ho] at hcap
-        have := appendName_length_ge n (out ++ [46] ++ l)
+        have := appendName_len_ge n (out ++ [46] ++ l)
         simp only [List.length_append, List.length_cons, List.length_nil] at this
         omega
       · omega
@@ -233,7 +233,7 @@ theorem composeName_complete_none (recs : Bytes) {p : Nat} {n : Name} {j : Nat} 
     have hcap1 : out.length + len + 1 ≤ 255 := by
       by_cases ho : out.length ≠ 0
       · rw [if_pos ho] at hcap
-        have := appendName_length_ge n (out ++ [46] ++ l)
+        have := appendName_len_ge n (out ++ [46] ++ l)
         simp only [List.length_append, List.length_cons, List.length_nil] at this
         omega
       · omega
